@@ -58,7 +58,8 @@ class Trees(object):
 
     def stack(self, depth=0, as_child=False):
         r = self.rng
-        nfr = r.randint(0 if as_child else 1, self.width if depth < 2 else 1)
+        # extract() of something it cannot look into returns a Stack with no frames (and that object as leaf)
+        nfr = r.randint(0 if (as_child or r.random() < 0.1) else 1, self.width if depth < 2 else 1)
         frames = [self.frame(depth) for _ in range(nfr)]
         leaf = self.obj() if r.random() < 0.3 else None
         err = None
